@@ -64,8 +64,7 @@ def build(cfg, ctx, order, init_pos, dups):
         elif name == 'init':
             lab.seed_rng(cfg['seed'])
             init = cfg['init']
-            if init['kind'] == 'point': s.SetInitialPoints(FL(init['x0']))
-            else: s.SetRandomInitialPoints(FL(init['lo']), FL(init['hi']))
+            lab.apply_init(s, init)
 
     seq = list(order)
     seq.insert(min(init_pos, len(seq)), 'init')
